@@ -446,6 +446,27 @@ class Exec:
             return self.const(o["c"])
         return ("runtime_check",)
 
+    def write_ref(self, st, r, v):
+        """store through a reference term ("ref", path, index|None)"""
+        if len(r) > 2 and r[2] is not None:
+            arr = self.read_path(st, r[1])
+            st.store.write(r[1], ("store", arr, r[2], v))
+        else:
+            st.store.write(r[1], v)
+
+    @staticmethod
+    def default_of(callee):
+        """Default::default() of the primitive a `mem::take::<T>` is instantiated at (None if not a primitive)"""
+        m = re.search(r"take::<([^<>]*)>$", callee.get("path_args") or "")
+        ty = m.group(1) if m else None
+        if ty == "f64":
+            return cf(0.0)
+        if ty == "bool":
+            return FALSE
+        if ty in ("usize", "u8", "u16", "u32", "u64", "i32", "i64", "isize"):
+            return cu(0)
+        return None
+
     def deref_val(self, st, v):
         """value behind a reference term"""
         if isinstance(v, tuple) and v[0] == "ref":
@@ -1057,6 +1078,22 @@ class Exec:
             return ("conv", name, args[0])
         if re.search(r"default::Default", n) and not args:
             return ("default", name)
+        m = re.search(r"mem::(replace|swap|take)$", n)
+        if m and args and all(isinstance(a, tuple) and a[0] == "ref" for a in args[:2 if m.group(1) == "swap" else 1]):
+            which = m.group(1)
+            old = self.deref_val(st, args[0])
+            if which == "replace":
+                self.write_ref(st, args[0], args[1])
+                return old
+            if which == "swap":
+                other = self.deref_val(st, args[1])
+                self.write_ref(st, args[0], other)
+                self.write_ref(st, args[1], old)
+                return UNIT
+            dflt = self.default_of(callee)
+            if dflt is not None:
+                self.write_ref(st, args[0], dflt)
+                return old
         for i, a in enumerate(args):
             if isinstance(a, tuple) and a[0] == "ref" and self._is_mut_ref(t, i) and a[1][0] == "self":
                 raise Unsupported("std call with &mut to state: " + name)
